@@ -62,6 +62,7 @@ def C01(ctx):
 def C17(ctx):
     if common_prelude(ctx, ["Props.C17"]):
         codec_runs(ctx, "enc", ["C17"], 4000, 60000)
+        codec_runs(ctx, "rt", ["C17"], 2000, 30000, name="rt-set")
     ctx.rules.append("as C01; additionally the library's own view of the population (IsNull/ToBytes of every field) is compared with the generator's intended population "
                      "(constructor / setter / FromBytes / FromBytes-then-Set routes); non-trivial = distinct wire image with > 4 fields")
     return finish(ctx, "proof", "Lean theorem C17_fields (wire fields = framing ++ populated leaves ++ checksum) + correspondence + spec oracle fieldsOK on implementation output",
@@ -79,9 +80,14 @@ def C02(ctx):
 
 
 def C18(ctx):
-    if common_prelude(ctx, ["Props.C18"]):
+    if common_prelude(ctx, ["Props.C18", "Props.C04"]):
         codec_runs(ctx, "rt", ["C18"], 2000, 30000)
         codec_runs(ctx, "vbt", ["C18"], 1500, 20000)
+        # end-of-message detection (conn.go): the reader under real Initiator / Acceptor
+        n = sizes(ctx, 200, 3000)
+        for sd in seeds(ctx):
+            res = run_harness(ctx, f"frame-{sd}", "conn", ["-mode", "frame", "-seed", str(sd), "-n", str(n)])
+            fold(ctx, res, ["C18", "C04"], f"framing model vs real Conn, seed {sd}")
     ctx.rules.append("messages with values spelling 'tag=' for template tags and with foreign fields whose tags are decimal extensions/truncations of template tags (re-framed): "
                      "decode must equal the intended population; ValueByTag must equal the field-boundary lookup lookupField; non-trivial = distinct (tag, image) with a successful lookup or unique-tag decode")
     return finish(ctx, "proof", "Lean scan lemma (first SOH·tag·= occurrence is at a field boundary) + correspondence + lookupField oracle on implementation output",
@@ -121,10 +127,20 @@ def sess_runs(ctx, props, n_quick, n_thorough, ln=(30, 60)):
         fold(ctx, res, props + ["SESS"], f"session model vs real Session, seed {s}")
 
 
+REALTIME = {"C06", "C07", "C10", "C14"}
+
+
 def sess_prop(pid, modules, technique, assumptions, nontrivial):
     def run(ctx):
         if common_prelude(ctx, modules):
             sess_runs(ctx, [pid], 120, 1500)
+            if pid in REALTIME:
+                # histories that need real time to pass (timers firing): refused logon then waiting, several
+                # timer heartbeats then a ResendRequest, a TestRequest while our own probe is pending
+                n = sizes(ctx, 5, 40)
+                for sd in seeds(ctx):
+                    res = run_harness(ctx, f"timers-{sd}", "timers", ["-seed", str(sd), "-n", str(n)])
+                    fold(ctx, res, [pid], f"real-time session scenarios (N = 1 s), seed {sd}")
         ctx.rules.append(SESS_RULE + "; non-trivial for this property = " + nontrivial)
         return finish(ctx, "proof", technique, TRUSTED_COMMON + [
             "timer expiries are events of the model but are not injected into the real session in this correspondence (intervals far longer than a history); they are exercised by the C08/C09 check"],
@@ -132,17 +148,17 @@ def sess_prop(pid, modules, technique, assumptions, nontrivial):
     return run
 
 
-C06 = sess_prop("C06", ["Props.C06"], "Lean invariant by induction over all event histories (run_preauth / C06_*) + step-by-step correspondence with the real Session + logon oracles",
+C06 = sess_prop("C06", ["Props.C06", "Props.SessionSkeleton"], "Lean invariant by induction over all event histories (run_preauth / C06_*) + step-by-step correspondence with the real Session + logon oracles",
                 ["no outgoing handler refuses and the store does not fail (C19's case)"], "distinct (Logon bytes, logged-before, approve) triples")
-C07 = sess_prop("C07", ["Props.C07"], "Lean theorem C07_preauth over all histories, stores and counters + correspondence + pre-logon output oracle",
+C07 = sess_prop("C07", ["Props.C07", "Props.SessionSkeleton"], "Lean theorem C07_preauth over all histories, stores and counters + correspondence + pre-logon output oracle",
                 ["local application sends are the application's own acts"], "distinct inbound messages processed before any successful logon")
-C10 = sess_prop("C10", ["Props.C10"], "Lean theorems C10_exact/open/never_outside/gap from the store-trace invariant + correspondence + byte-identity oracle on retransmissions",
+C10 = sess_prop("C10", ["Props.C10", "Props.SessionSkeleton"], "Lean theorems C10_exact/open/never_outside/gap from the store-trace invariant + correspondence + byte-identity oracle on retransmissions",
                 ["messages are not mutated by the application after sending (store keeps the object)"], "distinct (begin, end, last-sent) triples while logged on, and gap logons")
-C14 = sess_prop("C14", ["Props.C14"], "Lean theorem C14_echo + correspondence + echo oracle with adversarial TestReqIDs",
+C14 = sess_prop("C14", ["Props.C14", "Props.SessionSkeleton"], "Lean theorem C14_echo + correspondence + echo oracle with adversarial TestReqIDs",
                 [], "distinct TestReqID values answered while logged on")
-C15 = sess_prop("C15", ["Props.C15"], "Lean theorems C15_* (peer logout, own logout, stop/answer, stop/deadline, cancellation permanent) + correspondence + wall-clock oracle for Stop",
+C15 = sess_prop("C15", ["Props.C15", "Props.SessionSkeleton"], "Lean theorems C15_* (peer logout, own logout, stop/answer, stop/deadline, cancellation permanent) + correspondence + wall-clock oracle for Stop",
                 ["wall-clock: the close deadline is observed with a tolerance of 1 s"], "peer-logout / own-logout-answer / stop-answer / stop-deadline scenarios")
-C16 = sess_prop("C16", ["Props.C16"], "Lean theorems C16_reject_* (every admin kind x every damage/state) + correspondence + reject-by-sequence-number oracle",
+C16 = sess_prop("C16", ["Props.C16", "Props.SessionSkeleton"], "Lean theorems C16_reject_* (every admin kind x every damage/state) + correspondence + reject-by-sequence-number oracle",
                 [], "distinct (damaged or not-permitted admin message, logged-before) pairs")
 
 def C19(ctx):
@@ -307,7 +323,7 @@ def timer_prop(pid, modules, technique, nontrivial):
 
 
 C08 = timer_prop("C08", ["Props.C08"], "Lean theorems C08_upper / C08_lower over all refresh/poll sequences of the timer model + constants and formula text regenerated from source + real-time validation", "distinct refresh schedules / send patterns")
-C09 = timer_prop("C09", ["Props.C09"], "Lean theorems C09_live / silence_bound (timer) and C09_probe / disconnect / cancel (session model) + formula text regenerated from source + real-time probe/disconnect scenarios", "distinct inbound arrival patterns")
+C09 = timer_prop("C09", ["Props.C09", "Props.SessionSkeleton"], "Lean theorems C09_live / silence_bound (timer) and C09_probe / disconnect / cancel (session model) + formula text regenerated from source + real-time probe/disconnect scenarios", "distinct inbound arrival patterns")
 
 PROPS = {"C08": C08, "C09": C09, "C04": C04, "C13": C13, "C05": C05, "C20": C20, "C19": C19, "C06": C06, "C07": C07, "C10": C10, "C14": C14, "C15": C15, "C16": C16, "C01": C01, "C17": C17, "C02": C02, "C18": C18, "C03": C03, "C11": C11}
 
